@@ -180,7 +180,8 @@ def _c08_adversarial(rng, n) -> List[Dict[str, Any]]:
 
 
 PRE_OPS = ["freeze_features", "freeze_rf", "freeze_dilation", "train_net_only", "train_nas_only", "train_net_and_nas",
-           "summary", "cost", "continuous_cost", "discrete_cost", "train_mode_roundtrip", "export", "respec", "respec_switch"]
+           "summary", "cost", "continuous_cost", "discrete_cost", "train_mode_roundtrip", "export", "respec", "respec_switch",
+           "fork"]
 
 
 def _add_histories(scs, rng, frac=0.4):
@@ -191,6 +192,8 @@ def _add_histories(scs, rng, frac=0.4):
             sc["pre"] = [rng.choice(PRE_OPS) for _ in range(rng.randint(1, 4))]
             # the masks are written at a random point of the history (calls before it see the fresh model)
             sc["pre"].insert(rng.randint(0, len(sc["pre"])), "set_masks")
+        if "xb" not in sc and rng.random() < 0.2:
+            sc["xb"] = rng.choice([2, 3, 4])        # conversion traced with a mini-batch (input_example) instead of a shape
         if "variant" not in sc:
             # autoconvert on (default) / off with user-placed PIT layers / exclusion by type instead of by name
             sc["variant"] = rng.choices(["auto", "manual", "types"], weights=[6, 3, 1])[0]
